@@ -156,6 +156,9 @@ func groupOf(e *Engine) string {
 	if e.MaxWorkers > 0 {
 		g += "." + strconv.Itoa(e.MaxWorkers)
 	}
+	if e.Pool != "" {
+		g += "." + e.Pool
+	}
 	return g
 }
 
